@@ -273,7 +273,7 @@ structure IsoR (w D : World) (σ : Nat → Nat) : Prop where
 
 /-- **C03_roundtrip_reloadable**: the round trip for every `Reloadable` model — the hypothesis is the
     certificate `replG` (every reference resolves, innermost scope first, to the value it refers to, or
-    refers to a value introduced at that point; every value is introduced once).  It admits what
+    refers to a value introduced at that point; every value is introduced once).  It accepts what
     `Serializable` excludes: names shadowed in nested scopes, duplicate graph-input names, values that are
     used but defined nowhere (they come back as placeholder values), graph outputs nothing produces.
     Every model the deserializer returns is `Reloadable` (`deserialize_reloadable`). -/
